@@ -246,6 +246,10 @@ def _guards(fnode, node):
         if isinstance(p, ast.If):
             out.append(norm(p.test))
         n = p
+    from sa.ir import guard_facts
+    for f in guard_facts(fnode, node, with_raise=False):
+        if f not in out:
+            out.append(f)
     return out
 
 
